@@ -14,7 +14,9 @@ func generate(tier string, r *rng.R) []fw.Case {
 	}
 	var cs []fw.Case
 	for i := 0; i < n; i++ {
-		if i%3 == 0 {
+		if i%6 == 5 {
+			cs = append(cs, lateCollectCase(r.Fork()))
+		} else if i%3 == 0 {
 			cs = append(cs, clusterCase(r.Fork()))
 		} else {
 			cs = append(cs, envh.GenCase(r.Fork(), profile))
